@@ -44,6 +44,10 @@ PLAIN = [
     ("take3c", {"A": ["K", "M"], "B": ["K", "N"], "C": ["K"], "Z": ["M", "N"]},
      ["Z[m, n] = take(A[k, m], B[k, n], C[k], 2)"]),
     ("takenr", {"A": ["M"], "B": ["M"], "Z": ["M"]}, ["Z[m] = take(A[m], B[m], 1)"]),
+    ("takesc1", {"A": ["K", "M"], "B": ["K", "N"], "Z": ["M", "N"]}, ["Z[m, n] = take(A[k, m], B[k, n], c, 1)"]),
+    ("takesc2", {"A": ["K", "M"], "B": ["K", "N"], "Z": ["M", "N"]}, ["Z[m, n] = take(A[k, m], B[k, n], c, 2)"]),
+    ("takesc0", {"A": ["M"], "B": ["M"], "Z": ["M"]}, ["Z[m] = take(c, A[m], B[m], 2)"]),
+    ("takesum", {"A": ["K", "M"], "B": ["K", "M"], "C": ["K", "M"], "Z": ["M"]}, ["Z[m] = take(A[k, m], B[k, m], 0) + d * C[k, m]"]),
     ("elem", {"A": ["M", "N"], "B": ["M", "N"], "Z": ["M", "N"]}, ["Z[m, n] = A[m, n] * B[m, n]"]),
     ("elem3", {"A": ["M"], "B": ["M"], "C": ["M"], "Z": ["M"]}, ["Z[m] = A[m] * B[m] * C[m]"]),
     ("ttv", {"A": ["K", "M", "N"], "B": ["N"], "Z": ["K", "M"]}, ["Z[k, m] = A[k, m, n] * B[n]"]),
@@ -120,6 +124,8 @@ SHAPE_TEMPLATES = [
     ("elem", {"A": ["M", "N"], "B": ["M", "N"], "Z": ["M", "N"]}, ["Z[m, n] = A[m, n] * B[m, n]"]),
     ("sum2", {"A": ["K", "M"], "B": ["K", "M"], "Z": ["M"]}, ["Z[m] = A[k, m] + B[k, m]"]),
     ("take", {"A": ["K", "M"], "B": ["K", "N"], "Z": ["M", "N"]}, ["Z[m, n] = take(A[k, m], B[k, n], 1)"]),
+    # rank names that end in the letter the compiler uses to mark temporary occupancy ranks
+    ("gemm-ijk", {"A": ["I", "K"], "B": ["K", "J"], "Z": ["I", "J"]}, ["Z[i, j] = A[i, k] * B[k, j]"]),
 ]
 
 # (label, directives, number of levels, named sizes)
@@ -594,4 +600,133 @@ def f_st(tier="quick", seed=0):
                                   "decl": decl, "exprs": exprs, "mapping": m, "extents": ext, "sizes": {},
                                   "tags": {"family": "st", "template": name, "slip": slip,
                                            "all_stamped": True, "styles": sorted(set(st.values()))}})
+    return specs
+
+
+# ---------------------------------------------------------------- F-metrics
+PRIMES = [2, 3, 5, 7, 11, 13, 17, 19, 23]
+BIG_PRIMES = [101, 103, 107, 109, 113, 127, 131, 137, 139, 149, 151, 157, 163, 167, 173]
+
+
+def primes_everywhere(arch):
+    """instance counts, clock frequencies and bandwidths -> distinct primes"""
+    import re
+    it = iter(PRIMES * 3)
+    bit = iter(BIG_PRIMES * 3)
+    arch = re.sub(r"\[0\.\.(\d+)\]", lambda m: "[0..%d]" % (next(it) - 1), arch)
+    arch = re.sub(r"(clock_frequency|bandwidth):\s*\d+", lambda m: "%s: %d" % (m.group(1), next(bit)), arch)
+    return arch
+
+
+def mini_metrics_yaml(loop, isect, style, ro, lead="A", levels=None):
+    """a small accelerator around Z[m,n] = A[k,m] * B[k,n]; tensor ranks as iterated (loop order, partition levels)"""
+    levels = levels or {}
+
+    def iterated(base):
+        out = []
+        for r in base:
+            out += levels.get(r, [r])
+        return sorted(out, key=lambda r: loop.index(r))
+
+    def fmt(t, ranks):
+        y = "  %s:\n    default:\n      rank-order: [%s]\n" % (t, ", ".join(ranks))
+        for r in ranks:
+            y += "      %s:\n        format: C\n        cbits: 32\n        pbits: 64\n" % r
+        return y
+    ranks = {"A": iterated(ro.get("A", ["K", "M"])), "B": iterated(ro.get("B", ["K", "N"])), "Z": iterated(ro.get("Z", ["M", "N"]))}
+    y = "format:\n" + fmt("A", ranks["A"]) + fmt("B", ranks["B"]) + fmt("Z", ranks["Z"])
+    y += ("architecture:\n  Acc:\n  - name: System\n    attributes:\n      clock_frequency: 101\n    local:\n"
+          "    - name: Mem\n      class: DRAM\n      attributes:\n        bandwidth: 211\n    subtree:\n"
+          "    - name: PE[0..2]\n      local:\n      - name: Buf\n        class: Buffet\n        attributes:\n          width: 64\n          depth: 1024\n")
+    if isect:
+        y += "      - name: Isect\n        class: Intersector\n        attributes:\n          type: %s\n" % isect
+    y += ("      subtree:\n      - name: ALU[0..4]\n        local:\n"
+          "        - name: Mul\n          class: compute\n          attributes:\n            type: mul\n"
+          "        - name: Add\n          class: compute\n          attributes:\n            type: add\n")
+
+    def mem(t, rs, extra="", types=("coord", "payload")):
+        out = ""
+        for r in rs:
+            for ty in types:
+                out += "    - tensor: %s\n      rank: %s\n      type: %s\n      format: default\n%s" % (t, r, ty, extra)
+        return out
+    y += "bindings:\n  Z:\n  - config: Acc\n    prefix: tmp/Z\n  - component: Mem\n    bindings:\n"
+    y += mem("A", ranks["A"]) + mem("B", ranks["B"]) + mem("Z", ranks["Z"])
+    y += "  - component: Buf\n    bindings:\n"
+    ev = "      evict-on: root\n      style: %s\n" % style
+    if style == "lazy":
+        y += mem("A", ranks["A"][-1:], ev) + mem("Z", ranks["Z"][-1:], ev)
+    else:
+        ev = "      evict-on: %s\n      style: eager\n" % loop[0]
+        y += mem("A", ranks["A"][-1:], ev, ("coord",)) + mem("Z", ranks["Z"][-1:], ev, ("coord",))
+    if isect:
+        krank = [r for r in loop if r.startswith("K")][-1]
+        y += "  - component: Isect\n    bindings:\n    - rank: %s\n" % krank
+        if isect == "leader-follower":
+            y += "      leader: %s\n" % lead
+    y += "  - component: Mul\n    bindings:\n    - op: mul\n  - component: Add\n    bindings:\n    - op: add\n"
+    return y
+
+
+def f_metrics(tier="quick", seed=0):
+    import re
+    from . import integ
+    from . import spec as S
+    specs = []
+    for s in integ.integration_specs(metrics_only=True):
+        base = dict(s, tags={"family": "metrics", "template": s["name"], "legal": True, "leader_first": True})
+        specs.append(base)
+        v = dict(base, name=s["name"] + "/primes", arch=primes_everywhere(s["arch"]))
+        specs.append(v)
+        v = dict(v, tags={"family": "metrics", "template": s["name"], "leader_first": True})
+        if "skip-ahead" in s["arch"]:
+            specs.append(dict(v, name=s["name"] + "/two-finger", arch=v["arch"].replace("skip-ahead", "two-finger")))
+        if "leader-follower" in s["arch"]:
+            specs.append(dict(v, name=s["name"] + "/lf->two-finger", arch=v["arch"].replace("leader-follower", "two-finger")))
+            specs.append(dict(v, name=s["name"] + "/lf->skip-ahead", arch=v["arch"].replace("leader-follower", "skip-ahead")))
+            if "leader: A" in s["bindings"]:
+                specs.append(dict(v, name=s["name"] + "/leader-B", bindings=v["bindings"].replace("leader: A", "leader: B"),
+                                  tags={"family": "metrics", "template": s["name"], "leader_first": False}))
+        if "style: lazy" in s["bindings"] or "style: eager" in s["bindings"]:
+            sw = s["bindings"].replace("style: lazy", "style: @@").replace("style: eager", "style: lazy").replace("style: @@", "style: eager")
+            specs.append(dict(v, name=s["name"] + "/style-swapped", bindings=sw))
+    # the small accelerator: every loop order, three rank-order variants, intersector kinds, buffet styles
+    decl = {"A": ["K", "M"], "B": ["K", "N"], "Z": ["M", "N"]}
+    exprs = ["Z[m, n] = A[k, m] * B[k, n]"]
+    ros = [{}, {"A": ["M", "K"], "Z": ["N", "M"]}, {"B": ["N", "K"]}]
+    los = list(itertools.permutations(["M", "N", "K"]))
+    kinds = [None, "two-finger", "skip-ahead", "leader-follower"]
+    n = 0
+    for lo in los:
+        for ri, ro in enumerate(ros):
+            for isect in kinds:
+                for style in ("lazy", "eager"):
+                    for lead in (("A", "B") if isect == "leader-follower" else ("A",)):
+                        n += 1
+                        if tier == "quick" and (n + seed) % 3:
+                            continue
+                        y = mini_metrics_yaml(list(lo), isect, style, ro, lead)
+                        secs = S.split_sections(y)
+                        m = {"loop-order": {"Z": list(lo)}}
+                        if ro:
+                            m["rank-order"] = ro
+                        # metrics mode needs a spacetime for fusion
+                        m["spacetime"] = {"Z": {"space": [], "time": list(lo)}}
+                        specs.append({"name": "metrics/mini/lo=%s/ro=%d/%s/%s/lead=%s" % ("".join(lo), ri, isect, style, lead),
+                                      "decl": decl, "exprs": exprs, "mapping": m, "extents": {"K": 3, "M": 2, "N": 2}, "sizes": {},
+                                      "arch": secs["architecture"], "bindings": secs["bindings"], "format": secs["format"],
+                                      "tags": {"family": "metrics", "template": "mini", "legal": True,
+                                               "leader_first": not (isect == "leader-follower" and lead != "A")}})
+    # partitioned variant (explicit shapes with interleaved levels)
+    for lo in (["M1", "N", "K", "M0"], ["N", "M1", "M0", "K"], ["K", "M1", "N", "M0"]):
+        for isect in (None, "two-finger", "leader-follower"):
+            y = mini_metrics_yaml(lo, isect, "lazy", {}, "A", {"M": ["M1", "M0"]})
+            secs = S.split_sections(y)
+            b = secs["bindings"]
+            f = secs["format"]
+            m = {"partitioning": {"Z": {"M": ["uniform_shape(2)"]}}, "loop-order": {"Z": lo},
+                 "spacetime": {"Z": {"space": [], "time": lo}}}
+            specs.append({"name": "metrics/mini-part/lo=%s/%s" % (",".join(lo), isect), "decl": decl, "exprs": exprs, "mapping": m,
+                          "extents": {"K": 2, "M": 4, "N": 2}, "sizes": {}, "arch": secs["architecture"], "bindings": b, "format": f,
+                          "tags": {"family": "metrics", "template": "mini-part", "legal": True, "leader_first": True}})
     return specs
